@@ -89,7 +89,7 @@ VERUS = [dict(
 VERUS.append(dict(
     name="partition_iter_glue",
     uses="use vstd::prelude::*;\n",
-    prelude="prelude_glue.rs", proofs=None, witness="witness_glue.rs", rlimit=30, min_verified=1, twins=[], std_specs=False,
+    prelude="prelude_glue.rs", proofs="proofs_glue.rs", witness="witness_glue.rs", rlimit=30, min_verified=1, twins=[], std_specs=False,
     items=[
         dict(file=F, path=["impl BatchPartitioner", "fn partition_iter"], ret="r",
              fragment=dict(name="hash_arm_fragment",
@@ -123,8 +123,43 @@ VERUS.append(dict(
         r is Ok ==> final(indices)@.len() == old(indices)@.len()
             && forall|p: int| 0 <= p < old(indices)@.len() ==>
                 (#[trigger] final(indices)@[p])@ == range_routed(arrays@, old(split_points)@, old(sort_options)@, p, arrays_rows(arrays@) as int),"""),
+        dict(file=F, path=["impl BatchPartitioner", "fn partition_grouped_take"], ret="r", loop_count=1,
+             fragment=dict(name="grouped_take_bookkeeping",
+                           start="let mut partition_ranges = Vec::with_capacity(indices.len());",
+                           end="            p_indices.clear();\n        }",
+                           signature="fn grouped_take_bookkeeping(batch: &RecordBatch, indices: &mut [Vec<u32>]) -> (Vec<(usize, usize, usize)>, Vec<u32>)",
+                           tail="(partition_ranges, reordered_indices)"),
+             edits=[dict(rule="R1", find="for (partition, p_indices) in indices.iter_mut().enumerate() {", replace="for partition in 0..indices.len() {"),
+                    dict(rule="R13", find="p_indices.is_empty()", replace="indices[partition].is_empty()"),
+                    dict(rule="R13", find="reordered_indices.extend_from_slice(p_indices);", replace="extend_from_bucket(&mut reordered_indices, indices, partition);"),
+                    dict(rule="R13", find="p_indices.len()", replace="indices[partition].len()"),
+                    dict(rule="R13", find="p_indices.clear();", replace="clear_bucket(indices, partition);"),
+                    dict(rule="R3", find="let mut partition_ranges = Vec::with_capacity(indices.len());", replace="let mut partition_ranges: Vec<(usize, usize, usize)> = Vec::with_capacity(indices.len());"),
+                    dict(rule="R3", find="let mut reordered_indices = Vec::with_capacity(batch.num_rows());", replace="let mut reordered_indices: Vec<u32> = Vec::with_capacity(batch.num_rows());"),
+                    dict(rule="R18", elim_continue=True)],
+             contract="""    ensures
+        // the rows of all buckets concatenated bucket by bucket; one (partition, start, len) range per non-empty bucket, in
+        // bucket order, locating exactly that bucket's rows; every bucket emptied for the next batch
+        ranges_ok(r.0@, old(indices)@, r.1@, old(indices)@.len() as int),
+        final(indices)@.len() == old(indices)@.len(),
+        forall|q: int| 0 <= q < final(indices)@.len() ==> (#[trigger] final(indices)@[q])@.len() == 0,""",
+             loops={0: """
+        invariant
+            indices@.len() == old(indices)@.len(),
+            ranges_ok(partition_ranges@, old(indices)@, reordered_indices@, partition as int),
+            forall|q: int| 0 <= q < partition ==> (#[trigger] indices@[q])@.len() == 0,
+            forall|q: int| partition <= q < indices@.len() ==> indices@[q] == old(indices)@[q],
+"""},
+             proofs=[dict(at="loop_body_start:0", text="""
+            let ghost r0 = partition_ranges@; let ghost re0 = reordered_indices@;"""),
+                     dict(at="loop_body_end:0", text="""
+            proof { lemma_ranges_step(r0, partition_ranges@, old(indices)@, re0, reordered_indices@, partition as int); }""")]),
     ],
     mutants=[
+        dict(name="take_range_start_after_extend", item="grouped_take_bookkeeping", find="let start = reordered_indices.len();\n", replace="",
+             fixup=("partition_ranges.push((partition, start, indices[partition].len()));", "let start = reordered_indices.len(); partition_ranges.push((partition, start, indices[partition].len()));")),
+        dict(name="take_bucket_not_cleared", item="grouped_take_bookkeeping", find="clear_bucket(indices, partition);", replace=""),
+        dict(name="take_range_wrong_partition", item="grouped_take_bookkeeping", find="partition_ranges.push((partition, start,", replace="partition_ranges.push((partition + 1, start,"),
         dict(name="range_buckets_not_emptied", item="range_arm_fragment", find="clear_all(indices);", replace=""),
         dict(name="hash_buffer_not_zeroed", item="hash_arm_fragment", find="hash_buffer.clear();", replace=""),
         dict(name="buckets_not_emptied", item="hash_arm_fragment", find="clear_all(indices);", replace=""),
